@@ -100,3 +100,14 @@ m("c07-energy-cycles-wrong-total", ["C07"], Y,
 m("c07-total-power-includes-loads", ["C07"], Y,
   "            pwr = df[(df.Domain == \"\") & (df[\"Power (W)\"] != \"\")][\"Power (W)\"].sum()",
   "            pwr = df[(df.Type == \"SOURCE\") | (df.Type == \"PMUX\")][\"Power (W)\"].sum()")
+
+# ---- C08 -------------------------------------------------------------------------------------
+m("c08-first-row-current", ["C08"], Y, "                        iin += [sum(df[filt][\"Iin (A)\"])]", "                        iin += [df[filt][\"Iin (A)\"].tolist()[0]]")
+m("c08-phase-filter-dropped", ["C08"], Y,
+  "                            filt = (df[\"Rail in\"] == r) & (df[\"Phase\"] == ph)", "                            filt = (df[\"Rail in\"] == r) & (df[\"Phase\"] != \"\")")
+m("c08-loss-sum-is-power", ["C08"], Y, "                        l = sum(df[filt][\"Loss (W)\"])", "                        l = sum(df[filt][\"Loss (W)\"].tolist()[:2])")
+m("c08-lone-warning-lost", ["C08"], Y,
+  "                        if \"\" in w:\n                            w.remove(\"\")\n                        warn += [\", \".join(w)]",
+  "                        if len(w) > 1:\n                            if \"\" in w:\n                                w.remove(\"\")\n                            warn += [\", \".join(w)]\n                        else:\n                            warn += [\"\"]")
+m("c08-rail-in-of-mux-first-input", ["C08", "C05"], Y,
+  "                        pn = self._g[p[pinp]]._params[\"name\"]", "                        pn = self._g[p[0]]._params[\"name\"]")
